@@ -482,6 +482,10 @@ pub fn ev_export<K: Kmer + Send + Sync>(sink: &Sink, inp: &GInput, nodes: &[Node
         let gfa = String::from_utf8_lossy(&buf).to_string();
         let p1 = format!("{}/g-{}.gfa", tmpdir, std::process::id());
         let p2 = format!("{}/t-{}.gfa", tmpdir, std::process::id());
+        // the target paths already hold a longer file: an export replaces the file, it does not overwrite its head
+        let stale: String = (0..(nodes.len() * 40 + 400)).map(|i| format!("S\t{}\tACGTACGTACGT\nL\t{}\t+\t{}\t-\t3M\n", 900000 + i, 900000 + i, i)).collect();
+        std::fs::write(&p1, &stale).expect("prefill");
+        std::fs::write(&p2, &stale).expect("prefill");
         g.to_gfa(&p1).expect("to_gfa");
         g.to_gfa_with_tags(&p2, |n| format!("LN:i:{}", n.len())).expect("to_gfa_with_tags");
         let gfa_file = std::fs::read_to_string(&p1).unwrap_or_default();
